@@ -148,10 +148,10 @@ fn ref_slice(line: &str, col: u64, span: u64) -> Option<&str> {
 }
 pub fn sourceview() -> Report {
     let maxlen = if crate::deep() { 7 } else { 5 };
-    let bound_s = format!("all texts of length <= {maxlen} over {{a, LF, CR, e-acute, U+1F600}}; access orders per text: reverse, forward with the count first, missing line first, late line first, every single line then the count, every adjacent pair late one first then the count; the iterator after each; a clone taken after the first request and a clone of the fully read view (built by from_string) read backwards, then counted; all (col, span) in 0..=len+1 per line plus extreme values");
+    let bound_s = format!("all texts of length <= {maxlen} over {{a, LF, CR, e-acute, U+20AC, U+1F600}}; access orders per text: reverse, forward with the count first, missing line first, late line first, every single line then the count, every adjacent pair late one first then the count; the iterator after each; a clone taken after the first request and a clone of the fully read view (built by from_string) read backwards, then counted; all (col, span) in 0..=len+1 per line plus extreme values");
     let bound = bound_s.as_str();
     let mut cases = 0u64;
-    let alpha = ['a', '\n', '\r', 'é', '😀'];
+    let alpha = ['a', '\n', '\r', 'é', '€', '😀'];
     let mut texts: Vec<String> = vec![String::new()]; let mut layer: Vec<String> = vec![String::new()];
     for _ in 0..maxlen { let mut next = vec![]; for l in &layer { for c in alpha { let mut t = l.clone(); t.push(c); next.push(t); } } texts.extend(next.iter().cloned()); layer = next; }
     for t in &texts {
